@@ -82,6 +82,7 @@ def run(R):
         evs.append(({"op": "ed_exchange", "pk": peer, "sk": s}, ("exchange", name)))
     evs.append(({"op": "ed_exchange", "pk": peer[:31] + [peer[31] ^ 128], "sk": s0}, ("exchange", "signbit")))
     hs = []
+    evs.append(({"op": "ed_consts"}, ("consts",)))          # the public size constants
     # the scalar routines signing is composed of, on inputs directed at their rare borrow classes (unreachable through hash outputs)
     evs += cc.signing_scalar_events(R, 40 if thorough else 12)
     for e, key in evs:
